@@ -12,8 +12,8 @@ ASSUMPTIONS = [
 ]
 
 
-def correspondence(ctx, thorough, search):
-    out = os.path.join(ctx.work, "search" if search else "corr")
+def correspondence(ctx, thorough, search, prop="C11", sub=""):
+    out = os.path.join(ctx.work, ("search" if search else "corr") + sub)
     n = 600 if thorough else 40
     rc, o, dt = core.sh([core.vh(), "c11", out, str(ctx.seed + (911 if search else 0)), str(n)], timeout=3000)
     if rc != 0:
@@ -30,7 +30,7 @@ def correspondence(ctx, thorough, search):
                 dis.append({"code": c, "meaning": names.get(c, "?"), "file": os.path.basename(f), "case_index": i})
     ov = [{"class": v["class"], "what": v["what"], "input": {"module_hex": v.get("input")},
            "replay_cmd": "parse <module_hex> with ModuleConfig::preserve_code_transform(true), add a custom section whose apply_code_transform records its argument, emit_wasm, compare with the decoded output"}
-          for v in meta.get("oracle_violations", []) if "C11" in v.get("props", "").split()]
+          for v in meta.get("oracle_violations", []) if prop in v.get("props", "").split()]
     cov = {"evaluations": meta["cases"], "distinct_nontrivial": meta["cases"],
            "rule": "corpus + all fixtures + body-rich generated modules (nested blocks/loops/ifs with and without else, dead code, nops) + modules with 130 and 16390 function bodies (2- and 3-byte count LEB); each emitted with preserve_code_transform three times: unchanged, after the GC pass, and after inserting marker instructions at random positions through the builder API; every pair, every function range and code_section_start compared with the independently decoded output",
            "samples": meta["samples"], "traces_validated_against_impl": n_eval,
